@@ -16,7 +16,9 @@ linear      LinearElastic == LinearElasticTensorNotation == MaterialStrain(linea
 moduli      initial tangent at F = I == isotropic linear-elastic tangent with the moduli the *docstring* states
             (table DOC below, transcribed from the docstrings -- not from the code); closed forms in the
             symbolic parameters *and exponents* (`*=real` configurations: ogden, lopez_pamies, storakers,
-            extended_tube, saint_venant_kirchhoff k).
+            extended_tube, saint_venant_kirchhoff k).  tensortrax `alexander` (hand-built dual number, energy value
+            not evaluated) under the AD contract of vk/handdual.py: mu0 = 2 (C1 + C2/gamma + C3) for all C1, C2, C3,
+            gamma > 0, k.
 """
 import itertools
 from fractions import Fraction as Fr
@@ -29,21 +31,23 @@ import felupe.constitution.jax.models.hyperelastic as JX
 import felupe.constitution.linear_elasticity._lame_converter as LAME
 import felupe.constitution.tensortrax as mt
 import felupe.constitution.tensortrax.models.hyperelastic as TT
+from vk import handdual as HD
 from vk import models as M
 from vk import oracle, ring, symnp
 from vk.core import Skip, contract
 from vk.ring import LP, co
 from vk.symnp import det_ref, inv_ref, ref_einsum
 
-from .c11_objectivity import EYE, JAX_PERTURBED, _par, get_model, major_T, native_kw, require_det, sym_F
+from .c11_objectivity import EYE, JAX_PERTURBED, _par, dual_consistent, get_model, major_T, model_ctx, native_kw, require_det, sym_F
 
-TRUSTED = M.TRUSTED + [
+TRUSTED = M.TRUSTED + HD.TRUSTED + [
     "C12: numpy.linalg.inv imported by _lame_converter.py is rebound to the exact adjugate/determinant inverse (assumed dependency contract)",
     "C12: jax principal-stretch models (storakers, extended_tube) are compared with their tensortrax namesakes with jax' literal eigenvalue perturbation diag(0, +-1e-4) replaced by 0 (identity at perturbation 0; the deviation with the literal is of the documented size 1e-4); van_der_waals' literal regularisation Im += 1e-4 is kept (identical in both back ends) and replaced by a symbol eps for the documented modulus (closed form in eps, equal to the documented mu at eps = 0)",
     "C12 lemma (A6): two isotropic energies agree iff their restrictions to C = diag(a,b,c), a,b,c>0 agree; an isotropic fourth-order tensor with minor and major symmetry is fixed by (lambda, mu), so the initial tangent of an isotropic model is the linear-elastic tangent with mu0 = 2(psi_aa - psi_ab) + psi_a, K0 = 4 psi_ab + 2/3 mu0 at a=b=c=1",
     "C12: fractional powers of monomials in positive quantities are canonicalised ((x^2)^(3/4) = (x^(1/2))^3 = x^(3/2); roots of one base unified to the common root) -- sound rewriting under the recorded positivity facts (vk/models.py nthroot_canonical, unify_roots)",
     "C12: powers with a symbolic real exponent are canonicalised by identities of positive reals: pw(c prod g_i^e_i, x) = pw(c, x) prod pw(g_i, e_i x) for positive factors, pw(root(p, n), x) = pw(p, x/n), pw(p, -x) = 1/pw(p, x), pw(p, x + c) = pw(p, x) p^c, and atoms pw(p, s_i x) of one base are unified to the common scale gcd(s_i) (vk/ring.py powatom, vk/models.py powatom_canonical, unify_pows; each rule is cross-checked against sympy by the kernel self-test)",
-    "C12: real exponents: in the `*=real` configurations the exponents are universally quantified reals (no assumption on them except the denominators the executed code divides by, listed as side conditions): backends -- storakers alpha_i / beta_i, extended_tube beta, miehe_goektepe_lulei p / q (psi_jax == psi_tensortrax for all exponent values); moduli -- ogden alpha_i, lopez_pamies alpha_r, storakers alpha_i / beta_i, extended_tube beta, saint_venant_kirchhoff k (k != 2, k != 0: the code branches on these two values, which are separate configurations).  The rational instantiations are kept as additional configurations (root-atom path).  Still instantiated / not reached: the MORPH Lagrange models and alexander (bounded native stand-ins), saint_venant_kirchhoff_orthotropic k != 2 (eigh eigenvectors)",
+    "C12: real exponents: in the `*=real` configurations the exponents are universally quantified reals (no assumption on them except the denominators the executed code divides by, listed as side conditions): backends -- storakers alpha_i / beta_i, extended_tube beta, miehe_goektepe_lulei p / q (psi_jax == psi_tensortrax for all exponent values); moduli -- ogden alpha_i, lopez_pamies alpha_r, storakers alpha_i / beta_i, extended_tube beta, saint_venant_kirchhoff k (k != 2, k != 0: the code branches on these two values, which are separate configurations).  The rational instantiations are kept as additional configurations (root-atom path).  Still instantiated / not reached: the MORPH Lagrange models (bounded native stand-ins), saint_venant_kirchhoff_orthotropic k != 2 (eigh eigenvectors)",
+    "C12: alexander (tensortrax; energy value not evaluated, hand-built dual number): executed symbolically under the AD contract of vk/handdual.py (psi = C1.W(I1) + ... with the contract atom W, dW/dI1 = exp(k (I1-3)^2)); the documented initial shear modulus is decided from the first and second derivatives through the declared partial (D of the atom is A dI1, D again differentiates A); that the dual parts as built are the variations of W(I1) is discharged in C11/model_other[model=alexander,part=dual] and re-checked (formal check) in the moduli configuration",
 ]
 
 TRI = [(i, j) for i in range(3) for j in range(i, 3)]
@@ -523,6 +527,7 @@ DOC = {
     "extended_tube": (lambda k: k["Ge"] + k["Gc"], lambda k: 0 * k["Ge"], "mu = Ge + Gc (at delta = 0)"),
     "saint_venant_kirchhoff": (lambda k: k["mu"], lambda k: k["lmbda"] + Fr(2, 3) * k["mu"], "mu : second Lame constant (shear modulus), lmbda : first Lame constant  =>  K = lmbda + 2/3 mu"),
     "van_der_waals": (lambda k: k["mu"], None, "mu : Initial shear modulus (within the 1e-4 regularisation)"),
+    "alexander": (lambda k: 2 * (k["C1"] + k["C2"] / k["gamma"] + k["C3"]), lambda k: 0 * k["C1"], "mu = 2 (C1 + C2/gamma + C3); first and second main invariant of the distortional part of C"),
 }
 DOC_VARIANTS = {
     "ogden": (["a=real(2)", "a=real(3)", "a=(3/2,-2)"], ["a=(2,-2)", "a=(1,4)", "a=(13/10,5,-2)", "a=(1/2,-1/3)"]),
@@ -537,7 +542,7 @@ for _lib, _tag in ((TT, "tensortrax"), (JX, "jax")):
         if hasattr(_lib, _n):
             _q, _t = DOC_VARIANTS.get(_n, ([""], []))
             MODULI_CONFIGS += [dict(backend=_tag, model=_n, variant=v) for v in _q] + [dict(backend=_tag, model=_n, variant=v, tier="thorough") for v in _t]
-MODULI_CONFIGS += [dict(backend="hand", model=m, variant="") for m in ("NeoHooke", "NeoHookeCompressible", "Volumetric", "LinearElasticLargeStrain")] + [dict(backend="native", model="alexander", variant="")]
+MODULI_CONFIGS += [dict(backend="hand", model=m, variant="") for m in ("NeoHooke", "NeoHookeCompressible", "Volumetric", "LinearElasticLargeStrain")]
 
 VDW_LITERAL = 1e-4
 
@@ -556,15 +561,6 @@ def moduli(vk, cfg):
     oracle.TIMEOUT_MS = 1500
     if backend == "hand":
         return _moduli_hand(vk, name)
-    if backend == "native":
-        if vk.sym:
-            with symnp.native():
-                kw = dict(C1=17.0, C2=19.85, C3=1.0, gamma=0.735, k=0.00015)
-                mu0, K0 = _native_moduli(fem.Hyperelastic(fem.alexander, **kw))
-                doc = 2 * (kw["C1"] + kw["C2"] / kw["gamma"] + kw["C3"])
-            vk.bounded_standin("alexander: initial shear modulus == documented 2 (C1 + C2/gamma + C3) (native float, hand-built dual numbers cannot be executed symbolically)", "one parameter set (docstring example)", 1, abs(mu0 - doc) < 1e-8 * doc and abs(K0) < 1e-8 * doc, f"mu0 = {mu0!r}, documented {doc!r}, K0 = {K0!r}")
-            vk.note("not decided: documented initial shear modulus of alexander (bounded native stand-in); micro-sphere models state no closed form")
-        return
     from .c11_objectivity import model_params
 
     kw = model_params(vk, name, variant)
@@ -601,8 +597,12 @@ def moduli(vk, cfg):
         Cd, (a, b, c) = M.diag_matrix(vk)
         for x in (a, b, c):
             vk.requires(x, ">")
-        with M.rebound(f):
+        HD.reset()
+        with model_ctx(backend, name, f):
             psi = co(f(Cd, **kw))
+        if name == "alexander":
+            dual_consistent(vk)
+            vk.note("documented initial moduli: the micro-sphere models state no closed form (not in the table)")
         pa, mu0, K0 = M.initial_moduli(psi, a, b, c)
         vk.ensures_zero("stress-free-reference/psi_a(1,1,1)==0", M.unify(pa))
         if name == "van_der_waals":
